@@ -68,6 +68,14 @@ func KAC(k refmodel.KeysAndCert) (*keys_and_cert.KeysAndCert, error) {
 }
 
 func Destination(k refmodel.KeysAndCert) (*destination.Destination, error) {
+	if k.Cert.Type == refmodel.CertNull {
+		// a legacy NULL-certificate destination can only be obtained from its bytes
+		d, rem, err := destination.ReadDestination(k.Bytes())
+		if err != nil || len(rem) != 0 {
+			return nil, ErrNotConstructible{"NULL-certificate destination does not parse"}
+		}
+		return &d, nil
+	}
 	kac, err := KAC(k)
 	if err != nil {
 		return nil, err
@@ -204,11 +212,15 @@ func LeaseSet2(ls refmodel.LeaseSet2, signer refmodel.KeyPair) (*lease_set2.Leas
 		}
 		leases = append(leases, *ll)
 	}
+	// Ed25519-family keys are handed over in their raw form (the constructor chooses pure or
+	// pre-hashed signing from the signing type); other types as go-i2p/crypto private keys.
 	var sk interface{}
-	if p, err := SigningPriv(signer); err == nil {
+	if len(signer.Priv) == 64 {
+		sk = ed25519.PrivateKey(signer.Priv)
+	} else if p, err := SigningPriv(signer); err == nil {
 		sk = p
 	} else {
-		sk = signer.Priv
+		return nil, ErrNotConstructible{err.Error()}
 	}
 	v, err := lease_set2.NewLeaseSet2(*d, ls.Published, ls.Expires, ls.Flags, off, opts, keys, leases, sk)
 	if err != nil {
